@@ -2,7 +2,9 @@
 from . import core, exprio, graphs, graphcorr
 from .core import Finding
 
-THEOREMS = ["Cspuz.C10.C10_exact_aux", "Cspuz.C10.C10_exact_prim", "Cspuz.C10.C10_total"]
+THEOREMS = ["Cspuz.C10.C10_exact_aux", "Cspuz.C10.C10_exact_prim", "Cspuz.C10.C10_total",
+            "Cspuz.C10.C10_general_aux", "Cspuz.C10.C10_general_prim", "Cspuz.C10.C10_general_total",
+            "Cspuz.C10.C10_fresh_ok", "Cspuz.C10.C10_general_implies_exact"]
 
 
 def correspond(ctx):
